@@ -173,12 +173,29 @@ def check(ctx, prog, stats, samples):
                 stats["kf01"] += 1
             else:
                 ctx.violation(f"implementation {out} deviates from the reference subtype rule {exp}", case)
+    # delegation through type[...] annotations: the walk made with f.next(...) must be the walk made with call_next(...)
+    # (Ovld.next builds the continuation key itself, from the run-time types of its arguments)
+    dn = [dict(d, body="next") for d in defs]
+    df = [dict(d, body="fnext") for d in defs]
+    bn, bf = progs.Built(world_from(prog["spec"]), dn), progs.Built(world_from(prog["spec"]), df)
+    for call, vals in zip(prog["calls"], pyargs):
+        vn = [bn.w.instance(a[1]) if a[0] == "V" else typing.Any if a[0] == "ANY" else py_obj(bn.w, a[1], a[2]) for a in call["args"]]
+        vf = [bf.w.instance(a[1]) if a[0] == "V" else typing.Any if a[0] == "ANY" else py_obj(bf.w, a[1], a[2]) for a in call["args"]]
+        rn, rf = bn.call(vn), bf.call(vf)
+        stats["evaluations"] += 1
+        stats["next_walks"] += 1
+        if rn != rf:
+            ctx.violation(f"the walk through f.next {rf} differs from the walk through call_next {rn}", dict(prog, calls=[call], fnext=True))
+            return
+        if len(set(rf[1])) != len(rf[1]):
+            ctx.violation(f"a method was visited twice in one f.next walk: {rf[1]}", dict(prog, calls=[call], fnext=True))
+            return
     if len(samples) < 2:
         samples.append({"defs": defs, "call": prog["calls"][0]})
 
 
 def run(ctx):
-    stats = {"evaluations": 0, "hist": collections.Counter(), "distinct": set(), "kf01": 0, "programs": 0}
+    stats = {"evaluations": 0, "hist": collections.Counter(), "distinct": set(), "kf01": 0, "programs": 0, "next_walks": 0}
     samples = []
     n = 80 if ctx.quick() else 4000
     for _ in range(n):
@@ -190,12 +207,12 @@ def run(ctx):
     return {"evaluations": stats["evaluations"], "distinct_nontrivial": len(stats["distinct"]),
             "rule": "random hierarchies; 2-6 methods over 1-2 positions, one position annotated with type[...] over classes, bare and parametrised generics (list, dict, nested to depth 2), bare type or object, the others with classes; 14 calls passing classes, bare / parametrised / nested generics (25% in typing.List / typing.Dict spelling), typing.Any and ordinary values; every case involves a type-valued position: all non-trivial; distinct by content",
             "samples": samples, "programs": stats["programs"], "outcome_histogram": dict(stats["hist"]),
-            "deviations_attributed_to_KF-01": stats["kf01"], "traces_validated_against_impl": stats["evaluations"]}
+            "deviations_attributed_to_KF-01": stats["kf01"], "walks_f_next_vs_call_next": stats["next_walks"], "traces_validated_against_impl": stats["evaluations"]}
 
 
 def replay(ctx, payload):
     """re-run the recorded program through the same comparisons; reproduced iff it raises a violation again"""
-    stats = {"evaluations": 0, "hist": collections.Counter(), "distinct": set(), "kf01": 0, "programs": 0}
+    stats = {"evaluations": 0, "hist": collections.Counter(), "distinct": set(), "kf01": 0, "programs": 0, "next_walks": 0}
     before = len(ctx.violations)
     check(ctx, payload["case"], stats, [])
     return len(ctx.violations) > before
